@@ -267,7 +267,9 @@ pub fn run(prop: &str, tier: &str, replay: Option<&str>) -> i32 {
     let children = if cfg!(feature = "ring") { vec![run::spawn_child("aws", prop, tier)] } else { vec![] };
     let zoo = load_zoo();
     let mut keys: Vec<KeyCase> = Vec::new();
-    for z in zoo.iter().filter(|z| backend_supports(z.kind, z.format) && (thorough || (z.name.contains("_1") && !z.kind.is_slow()))) {
+    // quick: the first key of each kind and the small keys chosen for their framing (_8: attributes, inner curve parameters,
+    // version 2 without public key); thorough: every fixture
+    for z in zoo.iter().filter(|z| backend_supports(z.kind, z.format) && (thorough || ((z.name.contains("_1") || z.name.contains("_8")) && !z.kind.is_slow()))) {
         let a = z.kind.natural_alg();
         if let Ok(kp) = rc_load(z, a) {
             keys.push(KeyCase { label: z.name.clone(), kp, alg: a, needles: needles_for(&z.pkey), der: z.der.clone(), format: z.format });
@@ -366,7 +368,7 @@ pub fn run(prop: &str, tier: &str, replay: Option<&str>) -> i32 {
         if (k.label.starts_with("generated") || k.der.len() > 170) && !thorough {
             continue;
         }
-        if !error_text_key(&k.label, k.alg.is_rsa()) {
+        if !error_text_key(&k.label, k.alg.is_rsa()) || (!thorough && k.label.contains("_8")) {
             continue;
         }
         let n_all = d1_count(k.der.len());
@@ -455,7 +457,7 @@ pub fn run(prop: &str, tier: &str, replay: Option<&str>) -> i32 {
         if k.label.starts_with("generated") && !thorough {
             continue;
         }
-        if !error_text_key(&k.label, k.alg.is_rsa()) {
+        if !error_text_key(&k.label, k.alg.is_rsa()) || (!thorough && k.label.contains("_8")) {
             continue;
         }
         let label = match k.format {
